@@ -233,6 +233,12 @@ def rule_dispatch(ctx, ci):
     R = "R-C12-3"
     repo = ctx.repo
     rec = record_class(repo, NC, "NoteContainer", ["add_note", "remove_note"], result=Opaque("list"))
+    nci_ = repo.mod(NOTE).cls("Note")
+    # a note taken from another container may be stored as a copy (C15): Note(x) stands for x
+    rec[NOTE + ".Note"] = lambda it, args, kwargs, node: AObj(nci_, {"copied_from": args[0] if args else None}, name="copy")
+
+    def same_note(g, w):
+        return g is w or g == w or (isinstance(g, AObj) and g.attrs.get("copied_from") is w)
     fa = repo.find_method(ci, "add_notes")
     a, b = note_stub(repo, "a"), note_stub(repo, "b")
     src = AObj(ci, {"notes": [a, b]}, name="source")
@@ -252,7 +258,7 @@ def rule_dispatch(ctx, ci):
         got = None
         if ok:
             got = [e[1][1:] + [e[2][k] for k in sorted(e[2])] for e in log_of(paths[0].interp) if e[0] == "NoteContainer.add_note"]
-            ok = len(got) == len(want) and all(len(g) == len(w) and all(x is y or x == y for x, y in zip(g, w)) for g, w in zip(got, want))
+            ok = len(got) == len(want) and all(len(g) == len(w) and all(same_note(x, y) for x, y in zip(g, w)) for g, w in zip(got, want))
         ctx.check(ok, R, "add_notes[%s]" % label, fa.where(), "add_notes(<%s>)" % label,
                   "add_note is called with %s, expected %s (%s)" % (short(repr(got), 150), short(repr(want), 150), [(p.kind, short(repr(p.value), 40)) for p in paths]))
     fr = repo.find_method(ci, "remove_notes")
